@@ -209,6 +209,12 @@ func Catalogue() []Edit {
 	})
 	add("job/sample_limit", func(s *Spec, t *rapid.T) bool { j := anyJob(s, t, nil); j.SampleLimit += 7; return true })
 	add("job/label_limit", func(s *Spec, t *rapid.T) bool { j := anyJob(s, t, nil); j.LabelLimit += 3; return true })
+	add("job/proxy_url", func(s *Spec, t *rapid.T) bool {
+		j := anyJob(s, t, nil)
+		j.JobProxy = otherOf(j.JobProxy, "http://corp-proxy.internal:3128", "http://other-proxy.internal:3128")
+		return true
+	})
+	add("job/follow_redirects", func(s *Spec, t *rapid.T) bool { j := anyJob(s, t, nil); j.NoFollow = !j.NoFollow; return true })
 	add("job/target_limit", func(s *Spec, t *rapid.T) bool { j := anyJob(s, t, nil); j.TargetLimit += 11; return true })
 	add("job/label_name_length_limit", func(s *Spec, t *rapid.T) bool { j := anyJob(s, t, nil); j.NameLenLimit += 5; return true })
 	add("job/label_value_length_limit", func(s *Spec, t *rapid.T) bool { j := anyJob(s, t, nil); j.ValueLenLimit += 5; return true })
